@@ -21,6 +21,7 @@ class Net:
         self.waiters = []                 # sim threads blocked in select
         self.raw_accept = {}              # port -> list of Endpoint (driver-side listeners)
         self.log = []
+        self.cut_after = None             # armed link cut: drop the link after this many more bytes were accepted
 
     def wake(self):
         s = simrt._current
@@ -183,6 +184,24 @@ class SimSocket:
         n = min(len(data), free)
         if self.net.partial is not None:
             n = max(1, min(n, self.net.partial(len(data), free)))
+        if self.net.cut_after is not None:
+            if n >= self.net.cut_after:
+                # the link drops in the middle of this write: only the first bytes get through, both directions die
+                k = self.net.cut_after
+                self.net.cut_after = None
+                self.ep.peer.rx += bytes(data[:k])
+                self.ep.peer.total_in += k
+                self.net.log.append(("cut", len(data), k))
+                self.ep.fin = True
+                self.ep.peer.fin = True
+                self.ep.peer.closed = False
+                self.ep.cutoff = True
+                self.ep.peer.cutoff = True
+                self.net.wake()
+                return n
+            self.net.cut_after -= n
+        if getattr(self.ep, "cutoff", False):
+            return n          # bytes written into a dead link vanish
         self.ep.peer.rx += bytes(data[:n])
         self.ep.peer.total_in += n
         self.net.log.append(("send", len(data), n))
@@ -237,8 +256,9 @@ class SimSocket:
     # -- readiness for select
     def _readable(self):
         if self.closed:
-            # closing a descriptor in another thread does not wake a select() that is already waiting on it (Linux)
-            return False
+            # observed on Linux/CPython with the real classes: a select() that is already waiting on a listening
+            # socket returns it as readable when another thread closes it (the following accept() raises EBADF)
+            return True
         if self.listener is not None:
             return bool(self.listener.backlog)
         if self.ep is None:
